@@ -34,7 +34,10 @@ def dynamic(ctx):
     # (model mutant, invariant it must break): ghost subscription after a subscribe+release within one sweep; stale initial set
     # leaving a ghost; stale initial set hiding a subscription from a later link (messages lost)
     for bug, cfg in (("initempty", "MC_FloodSubDynDir.cfg"), ("staleinit", "MC_FloodSubDynDir.cfg"), ("staleinit", "MC_FloodSubDynDirM.cfg"),
-                     ("relinkdrop", "MC_FloodSubDynDirM.cfg"), ("norepub", "MC_FloodSubDynDirM.cfg")):
+                     ("relinkdrop", "MC_FloodSubDynDirM.cfg"), ("norepub", "MC_FloodSubDynDirM.cfg"),
+                     # belief about a neighbour kept across the re-opening of its stream (D28); the two critical sections of one loop
+                     # iteration interleaved with subscription changes / re-opened streams (D29): full schedules, replayed in lockstep
+                     ("relinkkeep", "MC_FloodSubDynDir.cfg"), ("holdbreak", "MC_FloodSubDynDir.cfg"), ("holdbreakm", "MC_FloodSubDynDirM.cfg")):
         hs = []
         for big in ("1", "0"):   # prefer a scenario made of big steps only (deterministic on the real nodes)
             r = ctx.tlc("MC_FloodSubDyn", cfg=cfg, workers=1, timeout=600, env={"BUG": bug, "BIGSTEP": big}, expect_ok=False, count=False)
